@@ -84,7 +84,69 @@ def model_join(inputs, on, defaults, kt):
     return rows
 
 
+def run_alldef(case, ctx):
+    """every table input is named in defaults: the join is the full outer join, each input supplying its default on the keys it lacks"""
+    from pyg_base import perdictable, dictable
+    from pyg_base._perdictable import join
+    kt, on = case['kt'], case['on']
+    names = list(case['inputs'])
+    live = {n: (build_table(s, n, kt) if isinstance(s, dict) and 'rows' in s else codec.dec(s)) for n, s in case['inputs'].items()}
+    tabs = [n for n in names if isinstance(case['inputs'][n], dict) and 'rows' in case['inputs'][n]]
+    snaps = {n: snap(dict(live[n])) for n in tabs}
+    keys = sorted({tuple(r[c] for c in on) for n in tabs for r in case['inputs'][n]['rows']})
+    exp = []
+    for k in keys:
+        row = {c: kval(kt, v) for c, v in zip(on, k)}
+        for n in names:
+            if n in tabs:
+                m = [r['v'] for r in case['inputs'][n]['rows'] if tuple(r[c] for c in on) == k]
+                row[n] = m[0] if m else case['defaults'][n]
+            else:
+                row[n] = live[n]
+        exp.append(row)
+    exp.sort(key=lambda r: tuple(r[c] for c in sorted(on)))
+    dflt = dict(case['defaults'])
+    st, res = ctx.call(join, dict(live), list(on), None, dflt)
+    ok = st == 'ok' and type(res) is dictable and len(res) == len(exp) and (not exp or (sorted(res.keys()) == sorted(list(on) + names) and all(same(dict(a), b) for a, b in zip(res, exp))))
+    ctx.check('join_model', ok, lambda: 'join(%r, on=%r, defaults=%r) with every table defaulted = %s %r\nmodel rows %r' % (case['inputs'], on, case['defaults'], st, [dict(r) for r in res] if st == 'ok' and isinstance(res, dict) else res, exp))
+    ctx.check('operands_unchanged', all(snap_same(snap(dict(live[n])), s_) for n, s_ in snaps.items()) and dflt == case['defaults'], lambda: 'join modified an input table / the defaults')
+    # the lifted function over the same inputs
+    log = []
+    g = {'_log': log}
+    exec('def f(%s):\n    _log.append((%s))\n    return ("f", %s)\n' % (', '.join(names), ''.join(n + ', ' for n in names), ''.join(n + ', ' for n in names)), g)
+    p = perdictable(g['f'], on=list(on), defaults=dict(case['defaults']))
+    st, res = ctx.call(p, **live)
+    if exp:
+        expv = [(tuple(r[c] for c in sorted(on)), ('f',) + tuple(r[n] for n in names)) for r in exp]
+        ok = st == 'ok' and type(res) is dictable and len(res) == len(expv) and all(same((tuple(r[c] for c in sorted(on)), r['data']), e) for r, e in zip(res, expv))
+        ctx.check('perdictable_rows_model', ok, lambda: 'perdictable(f, on=%r, defaults=%r)(%r) = %s %r\nmodel %r' % (on, case['defaults'], case['inputs'], st, [dict(r) for r in res] if st == 'ok' and isinstance(res, dict) else res, expv))
+        ctx.check('calls_exactly_once_per_recomputed_row', sorted(map(repr, log)) == sorted(repr(e[1][1:]) for e in expv), lambda: 'f evaluated with %r, expected once per row of %r' % (log, expv))
+    if len(tabs) >= 3:
+        ctx.mark_nontrivial(case)
+    ctx.cls('all_tables_defaulted:%d' % len(tabs))
+
+
+def gen_alldef(rng):
+    kt = rng.choice(['str', 'int'])
+    on = rng.choice([['k1'], ['k1'], ['k1', 'k2']])
+    universe = [dict(zip(on, t)) for t in ([(i,) for i in range(5)] if len(on) == 1 else [(i, j) for i in range(3) for j in range(2)])]
+    names = ['a', 'b', 'c', 'd'][:rng.randint(2, 4)]
+    inputs, defaults = {}, {}
+    for n in names:
+        if rng.random() < 0.15 and len(inputs) and n != names[-1]:
+            inputs[n] = rng.choice([1, 'sc', None, 2.5])
+            continue
+        keys = rng.sample(universe, rng.choice([0, 1, 1, 2, 3, len(universe)]))
+        inputs[n] = {'on': on, 'col': rng.choice([n, 'data', 'val']), 'rows': [dict(k, v='%s%s' % (n, ''.join(str(k[c]) for c in on))) for k in keys]}
+        defaults[n] = rng.choice([None, 'D' + n, 'D' + n, 0])
+    if not defaults:
+        return gen_alldef(rng)
+    return {'kind': 'alldef', 'kt': kt, 'on': on, 'inputs': inputs, 'defaults': defaults}
+
+
 def run_case(case, ctx):
+    if case.get('kind') == 'alldef':
+        return run_alldef(case, ctx)
     from pyg_base import perdictable, dictable
     from pyg_base._perdictable import join
     kt = case['kt']
@@ -274,7 +336,7 @@ def gen_case(rng):
         rows = []
         whole = rng.random() < 0.25
         for k in (pool if whole else rng.sample(pool, rng.randint(0, len(pool)))):
-            rows.append(dict(k, v='old%s' % ''.join(str(k[c]) for c in on), exp=rng.choice(['absent', 'past', 'past', 'future', 'none'])))
+            rows.append(dict(k, v=(None if rng.random() < 0.15 else 'old%s' % ''.join(str(k[c]) for c in on)), exp=rng.choice(['absent', 'past', 'past', 'future', 'none'])))
         case['prev'] = {'on': on, 'rows': rows}
         if rows and whole and rng.random() < 0.7:
             case['expiry_scalar'] = rng.choice(['past', 'future', 'none'])
@@ -300,9 +362,12 @@ def plan(tier, seed, n):
 def run(spec, ctx):
     for i in range(spec['n']):
         rng = random.Random('C20/%d/%d/%d' % (spec['seed'], spec['shard'], i))
-        case = gen_case(rng)
-        while not well_posed(case):
+        if rng.random() < 0.12:
+            case = gen_alldef(rng)
+        else:
             case = gen_case(rng)
+            while not well_posed(case):
+                case = gen_case(rng)
         ctx.case(case)
         ctx.run_case(case, run_case)
         if ctx.full():
